@@ -817,6 +817,16 @@ func replay(o Opts) {
 	if err := json.Unmarshal(b, &rp); err != nil || rp.Case == nil {
 		Die("replay file has no case: %v", err)
 	}
+	if rp.Case.Kind == "hmm" {
+		var rp2 struct {
+			Case *Case2 `json:"case"`
+		}
+		if err := json.Unmarshal(b, &rp2); err != nil || rp2.Case == nil {
+			Die("replay file has no Baum-Welch case: %v", err)
+		}
+		replay2(o, rp2.Case)
+		return
+	}
 	execute(rp.Case)
 	os.MkdirAll(o.Out, 0755)
 	if _, err := writeShard(o.Out, "replay", 0, []*Case{rp.Case}); err != nil {
